@@ -395,7 +395,7 @@ func (w *c05World) askHost(conn net.Conn, br *bufio.Reader, ip string) string {
 func c05(env *Env, rep *Report) {
 	cfgs := c05Configs()
 	inputs := c05Inputs()
-	rep.Rule = fmt.Sprintf("the real rdpgw binary started once per startable authentication subset (%d configurations; subsets with local run with TLS) with a scripted authentication service (password table in place of PAM, the real NTLM verifier) behind the unix socket; against each: methods {websocket upgrade, legacy RDG_OUT_DATA, RDG_IN_DATA, GET, POST, FOO} x %d Authorization header shapes (absent, empty, bare / truncated scheme words, Basic good / wrong password / other user's password / unknown user / empty parts / not base64 / no colon / case variants / doubled blank, good Basic credentials whose base64 text contains NTLM or Negotiate, NTLM and Negotiate garbage / type 3 without type 1 / 16-byte type 1, Bearer, Digest, two header lines); Kerberos: a ticket without and with an Active Directory PAC (gokrb5 test vectors: the tunnel runs under the confirmed account name, not the directory's display name), SPNEGO tokens with a valid ticket, a ticket under another service key, an expired and a not-yet-valid ticket; the same credentials accompanied by headers in which the client announces another user (RDG-User-Id in three encodings, reverse-proxy remote-user headers): the tunnel still carries the confirmed user; in configurations with OpenID next to other schemes the whole input list again together with the session cookie of a completed OpenID login (real callback) of the same and of another user; NTLM histories: type 1 + type 3 on one connection (NTLM and Negotiate scheme words), on two connections, type 3 twice, wrong password, unknown user. "+
+	rep.Rule = fmt.Sprintf("the real rdpgw binary started once per startable authentication subset (%d configurations; subsets with local run with TLS) with a scripted authentication service (password table in place of PAM, the real NTLM verifier) behind the unix socket; against each: methods {websocket upgrade, legacy RDG_OUT_DATA, RDG_IN_DATA, GET, POST, FOO} x %d Authorization header shapes (absent, empty, bare / truncated scheme words, Basic good / wrong password / other user's password / unknown user / empty parts / not base64 / no colon / case variants / doubled blank, good Basic credentials whose base64 text contains NTLM or Negotiate, NTLM and Negotiate garbage / type 3 without type 1 / 16-byte type 1, Bearer, Digest, two header lines); Kerberos: a ticket without and with an Active Directory PAC (gokrb5 test vectors: the tunnel runs under the confirmed account name, not the directory's display name), SPNEGO tokens with a valid ticket, a ticket under another service key, an expired and a not-yet-valid ticket; the same credentials accompanied by headers in which the client announces another user (RDG-User-Id in three encodings, reverse-proxy remote-user headers): the tunnel still carries the confirmed user; in configurations with OpenID next to other schemes the whole input list again together with the session cookie of a completed OpenID login (real callback) of the same and of another user; NTLM histories: type 1 + type 3 on one connection (NTLM and Negotiate scheme words), on two connections, type 3 twice, wrong password, unknown user; after one type 1 every sequence of two (thorough: three) authenticate messages over that challenge from {A right, B right, A wrong password, unknown, names A keyed by B, names B keyed by A}. "+
 		"Oracle: no Authorization => 401 with exactly one WWW-Authenticate per enabled scheme; the handler (101 / legacy 200 accept) is reached iff credentials of an enabled scheme were confirmed; the tunnel then carries the confirmed user (observed through which loopback backend the channel reaches); openid alone => open; no panic in the gateway log, process alive. distinct_nontrivial = distinct (configuration, method, input) cases.", len(cfgs), len(inputs)+2)
 	rep.Assumptions = append(rep.Assumptions, "PAM is replaced by a password table (the property is about the gateway's use of the backend's answer)", "Kerberos tickets are forged with the keytab the harness generated for the gateway (the gateway's verification path is real, the KDC is not); wrong-case scheme words and requests with two Authorization lines are unspecified",
 		"real sockets: every read waits up to 10 s; a timeout is an infrastructure error, not a verdict")
@@ -577,6 +577,9 @@ func c05(env *Env, rep *Report) {
 				}
 			}
 		}
+		if cfg.has("ntlm") {
+			distinct += w.ntlmHistories(viol, rep, env.thorough())
+		}
 		distinct += w.kerberos(viol, rep)
 		distinct += w.otherHost(viol, rep)
 		distinct += w.whileOpen(viol, rep)
@@ -727,6 +730,100 @@ func (w *c05World) ntlmReuse() (bool, string) {
 		return true, "forged authenticate message naming " + userB + " reached the handler"
 	}
 	return false, fmt.Sprintf("status %d", r.Status)
+}
+
+// ntlmHistories: after one type 1 message, every sequence of two (thorough: three) authenticate messages on the
+// same connection over that one challenge, from an alphabet of six: each of the two accounts with its own
+// password, an account with a wrong password, an unknown account, and each account *named* in a message whose
+// proof is computed with the other account's password. Only a message whose proof fits the account it names may
+// reach the handler, and the tunnel then runs under that account (whether an honest message is still honoured
+// after a refused one is the backend's business: a challenge is good for one attempt).
+func (w *c05World) ntlmHistories(viol func(kind, detail string), rep *Report, thorough bool) int {
+	type msg struct {
+		name        string
+		user, key   string
+		pass        string
+		honest      bool
+	}
+	alphabet := []msg{
+		{"a-right", userA, "", passA, true},
+		{"b-right", userB, "", passB, true},
+		{"a-wrong-password", userA, "", "wrong", false},
+		{"unknown-user", "mallory", "", passA, false},
+		{"names-a-keyed-by-b", userA, userB, passB, false},
+		{"names-b-keyed-by-a", userB, userA, passA, false},
+	}
+	depth := 2
+	schemes := []string{"NTLM"}
+	if thorough {
+		depth = 3
+		schemes = []string{"NTLM", "Negotiate"}
+	}
+	n := 0
+	var seqs [][]int
+	var gen func(cur []int)
+	gen = func(cur []int) {
+		if len(cur) == depth {
+			seqs = append(seqs, append([]int{}, cur...))
+			return
+		}
+		for i := range alphabet {
+			gen(append(cur, i))
+		}
+	}
+	gen(nil)
+	for _, scheme := range schemes {
+		for _, seq := range seqs {
+			n++
+			rep.add("executions", 1)
+			c, err := w.gw.Dial()
+			if err != nil {
+				continue
+			}
+			c.SetDeadline(time.Now().Add(15 * time.Second))
+			br := bufio.NewReader(c)
+			raw, _ := methodRequest("ws", []string{"Authorization: " + scheme + " " + base64.StdEncoding.EncodeToString(ntlmc.Negotiate())})
+			c.Write([]byte(raw))
+			r := ReadResponse(br)
+			var ch *ntlmc.Challenge
+			for _, v := range r.Header.Values("Www-Authenticate") {
+				if strings.HasPrefix(v, scheme+" ") {
+					if b, err := base64.StdEncoding.DecodeString(strings.TrimPrefix(v, scheme+" ")); err == nil {
+						ch, _ = ntlmc.ParseChallenge(b)
+					}
+				}
+			}
+			if ch == nil {
+				viol("no-challenge-for-type1/"+scheme, fmt.Sprintf("type 1 answered %d without a challenge", r.Status))
+				c.Close()
+				continue
+			}
+			names := []string{}
+			for _, mi := range seq {
+				m := alphabet[mi]
+				names = append(names, m.name)
+				t3 := "Authorization: " + scheme + " " + base64.StdEncoding.EncodeToString(ntlmc.Authenticate(ntlmc.AuthParams{User: m.user, KeyUser: m.key, Password: m.pass, ServerChallenge: ch.ServerChallenge, TargetInfo: ch.TargetInfo}))
+				raw, _ = methodRequest("ws", []string{t3})
+				c.Write([]byte(raw))
+				r = ReadResponse(br)
+				if r.Status != 101 {
+					continue
+				}
+				hist := strings.Join(names, ",")
+				rep.outcome(fmt.Sprintf("%s ntlm-history %s reached-at=%s", w.cfg, scheme, m.name))
+				if !m.honest {
+					viol("handler-reached-with-unconfirmed-credentials/ntlm-history/"+m.name, fmt.Sprintf("config=%s scheme=%s, one challenge, authenticate messages %s: the message %q (names %s, proof computed with %s's password) reached the tunnel handler", w.cfg, scheme, hist, m.name, m.user, map[bool]string{true: m.key, false: m.user}[m.key != ""]))
+				} else if !w.cfg.has("openid") {
+					if who := w.askHost(c, br, m.user); who != m.user {
+						viol("tunnel-does-not-carry-confirmed-user/ntlm-history", fmt.Sprintf("config=%s scheme=%s history %s: accepted as %s but the tunnel does not reach that user's host: %s", w.cfg, scheme, hist, m.user, who))
+					}
+				}
+				break
+			}
+			c.Close()
+		}
+	}
+	return n
 }
 
 // basicInterleavings: two clients authenticate with Basic at the same time; the harness decides when each
